@@ -10,7 +10,7 @@ import threading
 from harness import core, pickle_graphs as pg
 
 PROP = 'C14'
-PROOFS = ['theories/Pickle/StateLoops.v', 'theories/Pickle/StateSteps.v', 'theories/Pickle/StateProofs.v']
+PROOFS = ['theories/Pickle/StateLoops.v', 'theories/Pickle/StateSteps.v', 'theories/Pickle/StateProofs.v', 'theories/Pickle/Announce.v']
 HEADER = 'From PW Require Import Pickle.State Pickle.StateRun.\nOpen Scope Z_scope.\n'
 
 
